@@ -56,27 +56,31 @@ def rawKeyStr : RawKey → String
   | .priv c d => s!"priv:{c.name}:{d}"
   | .pub c x y => s!"pub:{c.name}:{x}:{y}"
 
+def parseSyn (s : String) : Option SynRes :=
+  if s == "ok" then some .ok else if s == "extra" then some .extra else if s == "fail" then some .bad else none
+
 def stepGlue : List String → Option String
   | "first_accept" :: ts =>
     match ts.mapM parseTry with
     | some l => some (resLine id (firstAccept l)) | none => some "bad-op"
   | ["matching_key", bits] =>
     some (resLine toString (matchingKeyId (if bits == "-" then [] else bits.toList.map (· == '1'))))
-  | ["cert_parse", h, okLen, pemOk] =>
-    -- `okLen` = length of the prefix of the data that `cryptography` loads as a certificate (0 = none): the loader's CONTENT answer;
-    -- which prefix is the element, too short / ExtraData and what is stripped are decided by the model (`derTotalLen`, `derLoad`, `certLoadDer`)
-    match parseHex h, parseNat okLen, parseBool pemOk with
-    | some b, some L, some po =>
-      let body : Bytes → Option String := fun d => if L ≠ 0 ∧ d.length = L then some "cert" else none
-      some (resLine id (certParse (fun _ => if po then some "cert" else none) (derLoad (fun d => (body d).isSome) body) b))
-    | _, _, _ => some "bad-op"
-  | ["der_load", h, okLen] =>
-    match parseHex h, parseNat okLen with
-    | some b, some L =>
-      let body : Bytes → Option String := fun d => if L ≠ 0 ∧ d.length = L then some "cert" else none
-      some (match derLoad (fun d => (body d).isSome) body b with
+  | ["cert_parse", h, plen, cls, pemOk] =>
+    -- the loader's CONTENT answers as the harness obtained them directly: `cls` = verdict of `cryptography` on the first `plen` bytes
+    -- (ok / extra = ExtraData raised inside / fail); which prefix is the element, too short / trailing data and what is stripped are
+    -- decided by the model (`derTotalLen`, `derLoad`, `certLoadDer`)
+    match parseHex h, parseNat plen, parseSyn cls, parseBool pemOk with
+    | some b, some L, some sc, some po =>
+      let syn : Bytes → SynRes := fun d => if d.length = L then sc else .bad
+      some (resLine id (certParse (fun _ => if po then some "cert" else none) (derLoad syn (fun _ => some "cert")) b))
+    | _, _, _, _ => some "bad-op"
+  | ["der_load", h, plen, cls] =>
+    match parseHex h, parseNat plen, parseSyn cls with
+    | some b, some L, some sc =>
+      let syn : Bytes → SynRes := fun d => if d.length = L then sc else .bad
+      some (match derLoad syn (fun _ => some "cert") b with
         | .ok _ => "ok:cert" | .extraData => "extra" | .fail => "fail")
-    | _, _ => some "bad-op"
+    | _, _, _ => some "bad-op"
   | ["der_total_len", h] =>
     match parseHex h with
     | some b => some (match derTotalLen b with | some n => s!"ok:{n}" | none => "none")
